@@ -15,6 +15,7 @@ from xonsh.tools import (
     find_next_break,
     get_logical_line,
     replace_logical_line,
+    source_lines,
     starting_whitespace,
     strip_continuation_comments,
     subproc_toks,
@@ -290,7 +291,7 @@ class Execer:
                     last_error_line = e.loc.lineno
                     idx = last_error_line - 1
                     err_idx = idx
-                    lines = input.splitlines()
+                    lines = source_lines(input)
                     if input.endswith("\n"):
                         lines.append("")
                     if idx >= len(lines):
